@@ -17,7 +17,7 @@ RULE = ("a Hypothesis generator assembles well-typed base programs from typed sn
         "a present OPTIONAL of the expected type, a near-miss function / list / map / class type, a fixed-shape list literal with "
         "a wrong / extra / missing element, a return statement replaced by a print (missing return on one path), "
         "one argument more / fewer, bare return, value returned from a void function, undeclared identifier, unknown field / "
-        "method, a method read as a value or a field called at the end of a dot chain of one to three links, call of a non-function, index of a non-indexable, operator on unsupported kinds. Two ENUMERATED matrices are added to the random programs: (a) typed positions - 7 expected types (open list, fixed-shape list, map, function, object, list of objects, optional) x 12 positions (declaration, re-assignment, argument, return from a function / method / closure / second return path, field initialisation and assignment, list element, push, map value) x every near-miss value of the type (other element / key / value / return type, OPTIONAL elements or results, other arity or length, optional of the type); (b) scope visibility - a name that IS declared, used where its scope does not reach (other branch of the same if, else-if condition, after a loop, outside a function / class, in a sibling function or method, parameters of another method, methods by their bare name, before the declaration). Oracle per mutant: exit status "
+        "method, a method read as a value or a field called at the end of a dot chain of one to three links, call of a non-function, index of a non-indexable, operator on unsupported kinds. Two ENUMERATED matrices are added to the random programs: (a) typed positions - 8 expected types (open list, fixed-shape list, map, function, function with an optional parameter, object, list of objects, optional) x 12 positions (declaration, re-assignment, argument, return from a function / method / closure / second return path, field initialisation and assignment, list element, push, map value) x every near-miss value of the type (other element / key / value / return type, OPTIONAL elements or results, other arity or length, optional of the type); (b) scope visibility - a name that IS declared, used where its scope does not reach (other branch of the same if, else-if condition, after a loop, outside a function / class, in a sibling function or method, parameters of another method, methods by their bare name, before the declaration). Oracle per mutant: exit status "
         "1 (not 101/134), a diagnostic `--> <right file>:<line of the mutated statement>:col`, and none of the program's output "
         "(`@START` is its first statement). evaluations = mutants. Non-trivial = the site is nested (not a top-level statement of "
         "the entry module); distinct by (program, site, fault)")
@@ -36,16 +36,18 @@ WRONG = {
     "fn1": ["g_fs", "g_fv", "add", "greet", "7", "g_list"],
     "map": ["g_map_ss", "g_map_is", "7", "g_list"],
     # families of the typed-position matrix (every entry is applied at every position)
-    "T-list": ["g_slist", "g_oilist", "g_llist", "g_olist", "g_pair_is", "g_opair", "7", "g_map"],
+    "T-list": ["g_slist", "g_oilist", "g_llist", "g_olist", "g_pair_is", "g_opair", "7", "g_map", "g_list.map(g_fo)", "g_list.map(g_fs)"],
     "T-fixed": ["g_oilist", "g_pair_is", "g_opair", "g_triple", "g_slist", "7"],
     "T-map": ["g_map_ss", "g_map_so", "g_map_is", "g_list", "7"],
     "T-fn": ["g_fs", "g_fo", "g_fv", "g_f2", "greet", "7"],
+    # a function that takes `int?` is wanted: one that takes a plain `int` cannot be called with nil
+    "T-fnopt": ["g_fn", "g_fsop", "g_fs", "g_f2", "7"],
     "T-obj": ["g_other", "g_oobj", "7", "g_lobj"],
     "T-lobj": ["g_olobj", "g_list", "g_obj"],
     "T-optint": ["g_ostr", "\"txt\"", "g_list", "g_oilist"],
 }
 # expected type text, a well-typed value, whether the declaration must be const
-TYPED = {"T-list": ("[int...]", "g_list", False), "T-fixed": ("[int, int]", "g_pair", True), "T-map": ("map[str, int]", "g_map", False), "T-fn": ("fn(int) -> int", "g_fn", False),
+TYPED = {"T-list": ("[int...]", "g_list", False), "T-fixed": ("[int, int]", "g_pair", True), "T-map": ("map[str, int]", "g_map", False), "T-fn": ("fn(int) -> int", "g_fn", False), "T-fnopt": ("fn(int?) -> int", "g_fop", False),
          "T-obj": ("G", "g_obj", False), "T-lobj": ("[G...]", "g_lobj", False), "T-optint": ("int?", "g_oint", False)}
 POSITIONS = ["decl", "reassign", "argument", "return", "return-method", "return-closure", "field-init", "field-assign", "element", "push", "mapvalue", "branch-return"]
 PRELUDE = """g_list: [int...] = [1, 2, 3]
@@ -129,6 +131,12 @@ g_fo = fn(u: int) -> int? {
 }
 g_f2 = fn(u: int, w: int) -> int {
 	return u
+}
+g_fop = fn(u: int?) -> int {
+	return 1
+}
+g_fsop = fn(u: str?) -> int {
+	return 1
 }
 g_oobj: G? = G()
 g_olobj: [G?...] = [G(), nil]
